@@ -56,6 +56,10 @@ func (c *chunkedBodyWriter) Write(p []byte) (n int, err error) {
 		}
 		c.wroteHeader = true
 	}
+	// a zero-length chunk is the end-of-body marker: an empty write sends nothing
+	if len(p) == 0 {
+		return 0, nil
+	}
 	if err = ext.WriteChunk(c.w, p, false); err != nil {
 		return
 	}
